@@ -436,7 +436,7 @@ func (w *world) actDeliver(t *rapid.T) {
 
 var headerMutations = []string{"none", "none", "version", "time_le_head", "time_eq_head", "seq_same", "seq_plus2", "seq_zero", "seq_max", "fee", "prev_random", "prev_zero", "prev_grandparent",
 	"bodyhash", "uxhash", "sig_flip", "other_key", "unsigned", "genesis_again"}
-var bodyMutations = []string{"drop_txn", "dup_txn", "double_spend_in_block", "spend_created_in_block", "spend_spent", "invalid_txn", "reorder", "empty"}
+var bodyMutations = []string{"drop_txn", "dup_txn", "double_spend_in_block", "spend_created_in_block", "spend_spent", "invalid_txn", "reorder", "empty", "create_coins", "destroy_coins", "create_coins", "destroy_coins"}
 
 // validTxnsFor returns 1-2 fresh transactions that the model accepts in a block on top of its head.
 func (w *world) validTxnsFor(t *rapid.T, m *ref.Model, n int) []coin.Transaction {
@@ -569,6 +569,23 @@ func (w *world) actCraft(t *rapid.T) {
 			if p != nil {
 				txns = append(txns, p.txn)
 			}
+		case "create_coins", "destroy_coins":
+			// an otherwise perfect block (signed by the publisher, header consistent with the body) whose transaction -
+			// properly signed by the owners of its inputs - pays out more or fewer coins than it spends
+			i := rapid.IntRange(0, len(txns)-1).Draw(t, "which_txn")
+			k := rapid.SampledFrom([]uint64{1, 1000, 1000000, 5000000}).Draw(t, "delta")
+			o := rapid.IntRange(0, len(txns[i].Out)-1).Draw(t, "which_out")
+			if mut == "create_coins" && txns[i].Out[o].Coins <= ^uint64(0)-k {
+				txns[i].Out[o].Coins += k
+			} else if mut == "destroy_coins" && txns[i].Out[o].Coins > k {
+				txns[i].Out[o].Coins -= k
+			}
+			var owners []gen.Key
+			for _, in := range txns[i].In {
+				owners = append(owners, keyByAddr[m.Utxo[in].Body.Address])
+			}
+			signTxn(&txns[i], owners)
+			w.stats["crafted_block_with_unbalanced_coins"]++
 		case "reorder":
 			if len(txns) >= 2 {
 				txns[0], txns[1] = txns[1], txns[0]
